@@ -116,7 +116,7 @@ impl Square {
     ];
 
     pub fn from_chars(file: char, rank: char) -> Option<Self> {
-        let file = (file as usize) - ('a' as usize);
+        let file = (file as usize).checked_sub('a' as usize)?;
         let i = rank.to_digit(10)?;
         let rank = 8_u32.wrapping_sub(i) as usize;
         Self::from_indices(file, rank)
